@@ -181,12 +181,15 @@ def check_C13(chk, tier, seed):
                           dict(case=c, impl=short(im), expected=want))
     # one client object, the server behind its address replaced between connect() calls: a rotation to another trusted, matching
     # certificate is accepted, a certificate for another name is refused (verification on) or accepted (off), the first one again is accepted
-    swap = core.run_sharded([eng.harness, "codec"], eng.prelude, ["TLSSWAP 1", "TLSSWAP 0"], shards=2, timeout=300, env=NET_ENV)
-    for c, im in zip(["TLSSWAP 1", "TLSSWAP 0"], swap):
+    # (... after a connect() the caller gave up on while the peer sat on the ClientHello; after 33 connect() calls in a row that were
+    # rightly refused; while another connection's handler is busy for five seconds: none of that is a setting either)
+    swapcases = ["TLSSWAP 1", "TLSSWAP 0", "TLSSWAP 1 dropfirst", "TLSSWAP 0 dropfirst", "TLSSWAP 1 fails33", "TLSSWAP 1 busy", "TLSSWAP 0 busy"]
+    swap = core.run_sharded([eng.harness, "codec"], eng.prelude, swapcases, shards=7, timeout=300, env=NET_ENV)
+    for c, im in zip(swapcases, swap):
         chk.case(c, True)
         chk.validated += 1
         chk.count("server-replaced-between-connects")
-        want = "TLSSWAP c1=ok c2=ok c3=refused c4=ok" if c.endswith("1") else "TLSSWAP c1=ok c2=ok c3=ok c4=ok"
+        want = "TLSSWAP c1=ok c2=ok c3=refused c4=ok" if c.split()[1] == "1" else "TLSSWAP c1=ok c2=ok c3=ok c4=ok"
         if im != want:
             chk.violation("one client object whose server was replaced between connect() calls (match, another trusted matching certificate, a certificate for another "
                           "name, match again): expected " + want[8:] + ", observed " + short(im, 200), dict(case=c, impl=short(im), expected=want))
